@@ -237,9 +237,19 @@ func cmdCheck(args []string) {
 		res.Extra["retried_after_timeout"] = len(retry)
 	}
 	if *updateGreen {
+		// only robustly discharged obligations are expected-green: not those that needed the
+		// retry pass or more than 4 s of the 10 s limit (they could time out under load and
+		// would then be reported on an unchanged tree)
+		wasRetried := map[*Obligation]bool{}
+		for _, o := range retry {
+			wasRetried[o] = true
+		}
+		robust := func(o *Obligation) bool {
+			return o.Status == "discharged" && o.TimeMS < 4000 && !wasRetried[o]
+		}
 		var names []string
 		for _, o := range res.Obls {
-			if o.Status == "discharged" && o.TimeMS < 20000 {
+			if robust(o) {
 				names = append(names, o.Name)
 			}
 		}
@@ -252,7 +262,7 @@ func cmdCheck(args []string) {
 				continue
 			}
 			all[o.Func] = true
-			if !(o.Status == "discharged" && o.TimeMS < 20000) {
+			if !robust(o) {
 				bad[o.Func] = true
 			}
 		}
